@@ -2120,6 +2120,33 @@ def rule_token(ctx: Ctx) -> None:
                 and arg(rnd, 0) is not None else None
             ok = type(n) is int and n >= 16
         ctx.check(ok, "token-preimage", fi or DC, c, "secrets appended only by token_maintenance (os.urandom(16))", "token secrets are modified elsewhere or are not random")
+    # every run of token_maintenance rotates: the validity window of a token is "two rotations", which bounds it in time only if no run of the
+    # periodic task can finish without appending a fresh secret (a rotation made conditional keeps the old secret - and its tokens - alive)
+    tm = repo.method("DHTCommunity", "token_maintenance", DC)
+    good = [(fi, c) for fi, c in appends if call_name(c) == "append" and fi is not None]
+    if good:
+        def _every_run(f, call, depth=0):
+            g = ctx.cfg(f)
+            nodes = g.nodes_for(call)
+            if not nodes or not g.must_complete(g.exit, nodes):
+                return False
+            if f is tm:
+                return True
+            if depth >= 3:
+                return None
+            sites = [(cf, cc) for _m, cf, cc in repo.callers_of_name(f.name) if cf is not None and f in repo.resolve_call(cf, cc)]
+            if not sites:
+                return None
+            res = [_every_run(cf, cc, depth + 1) for cf, cc in sites if _used_only_by(repo, cf, {"DHTCommunity.token_maintenance"}) or cf is tm]
+            if not res or any(r is None for r in res):
+                return None
+            return any(res)
+        verdicts = [_every_run(fi, c) for fi, c in good]
+        if not any(v is True for v in verdicts) and any(v is None for v in verdicts):
+            raise AnalysisError("undecided: whether every run of token_maintenance appends a fresh secret (the append sits in a helper whose calls are not followed)")
+        ctx.check(any(v is True for v in verdicts), "token-preimage", tm, good[0][1], "every run of token_maintenance appends a fresh secret (no path to its normal exit skips the rotation)",
+                  "token_maintenance can finish without appending a new secret: the rotation that bounds a token's validity to two maintenance intervals does not happen "
+                  "on that run, so the secret a token was derived from - and the token - stays valid beyond TOKEN_EXPIRATION_TIME")
     init = repo.method("DHTCommunity", "__init__", DC)
     # the constructor, or a private set-up helper only the constructor uses
     setup = [init] + [f for f in init.cls.methods.values() if f is not init and f.name.startswith("_") and _used_only_by(repo, f, {init.qualname})]
@@ -3382,6 +3409,84 @@ def rule_storage(ctx: Ctx) -> None:
         else:
             early_use = cfgc.reach([v for sn in stepn for v, lab in sn.succ if lab != "exc"], cut_nodes=heads)
         return not any(u in early_use for u in users)
+    # ---- a for loop that shrinks the very list it walks over: positions shift under the iterator
+    def _order(it: ast.AST, depth: int = 0):
+        """how a for loop's iterable walks the key's list: ("asc"|"desc", live?, what) with what in ("index", "pair", "value"), or None when it is
+        not derived from the list / not read.  live = the iterable consults the list while the loop runs."""
+        e = strip_cast(it)
+        if isinstance(e, ast.Name) and depth < 3 and e.id not in cl.params() and not is_vals(e):
+            d = single_def(cl, e.id)
+            if d is not None and d[1] is None:
+                r = _order(d[0], depth + 1)
+                return None if r is None else (r[0], False if isinstance(strip_cast(d[0]), (ast.Call, ast.ListComp)) and not r[1] else r[1], r[2])
+            return None
+        if is_vals(e):
+            return ("asc", True, "value")
+        if isinstance(e, ast.Subscript) and isinstance(e.slice, ast.Slice) and e.slice.lower is None and e.slice.upper is None and is_vals(e.value):
+            if e.slice.step is None:
+                return ("asc", False, "value")
+            if const_value(e.slice.step) == -1:
+                return ("desc", False, "value")
+            return None
+        if not isinstance(e, ast.Call) or not isinstance(e.func, ast.Name) or e.keywords and e.func.id != "sorted":
+            return None
+        f, a = e.func.id, e.args
+        if f in ("list", "tuple") and len(a) == 1:
+            r = _order(a[0], depth + 1)
+            return None if r is None else (r[0], False, r[2])
+        if f == "iter" and len(a) == 1:
+            return _order(a[0], depth + 1)
+        if f == "reversed" and len(a) == 1:
+            r = _order(a[0], depth + 1)
+            # reversed(<list>) reads the live list by position from the end; reversed(<snapshot>) is a snapshot
+            return None if r is None else ("desc" if r[0] == "asc" else "asc", r[1], r[2])
+        if f == "enumerate" and len(a) == 1:
+            r = _order(a[0], depth + 1)
+            return None if r is None or r[2] != "value" or r[0] != "asc" else ("asc", r[1], "pair")
+        if f == "range":
+            ln = lambda x: isinstance(resolve(cl, x), ast.Call) and chain(resolve(cl, x).func) == "len" and len(resolve(cl, x).args) == 1 and is_vals(resolve(cl, x).args[0])  # noqa: E731
+            if len(a) == 1 and ln(a[0]) or len(a) == 2 and const_value(a[0]) == 0 and ln(a[1]):
+                return ("asc", False, "index")
+            if len(a) == 3 and const_value(a[1]) == -1 and const_value(a[2]) == -1:
+                x = resolve(cl, a[0])
+                if isinstance(x, ast.BinOp) and isinstance(x.op, ast.Sub) and const_value(x.right) == 1 and ln(x.left):
+                    return ("desc", False, "index")
+            return None
+        return None
+
+    for l in inner:
+        shrink = []
+        for x in ast.walk(l):
+            if isinstance(x, ast.Call) and isinstance(x.func, ast.Attribute) and is_vals(x.func.value) and x.func.attr in ("pop", "remove", "__delitem__"):
+                shrink.append(x)
+            if isinstance(x, ast.Delete) and any(isinstance(t, ast.Subscript) and is_vals(t.value) for t in x.targets):
+                shrink.append(x)
+        if not shrink:
+            continue
+        o = _order(l.iter)
+        if o is None:
+            raise AnalysisError("undecided: Storage.clean removes entries from a key's list inside a for loop over something derived from that list in a way "
+                                "that is not decided (do the positions still to come shift?)")
+        direction, live, what = o
+        by_value = all(isinstance(x, ast.Call) and x.func.attr == "remove" for x in shrink)
+        tnames = {n.id for n in ast.walk(l.target) if isinstance(n, ast.Name)}
+        for x in shrink:
+            pos = None
+            if isinstance(x, ast.Call) and x.func.attr in ("pop", "__delitem__"):
+                pos = x.args[0] if len(x.args) == 1 and not x.keywords else None
+            elif isinstance(x, ast.Delete):
+                pos = x.targets[0].slice if len(x.targets) == 1 else None
+            elif isinstance(x, ast.Call) and x.func.attr == "remove":
+                continue
+            if not (isinstance(pos, ast.Name) and pos.id in tnames and what in ("index", "pair")):
+                raise AnalysisError("undecided: Storage.clean deletes from a key's list at a position that is not the loop's own index "
+                                    f"(`{norm(x)}`): whether the positions still to come shift is not decided")
+        # safe: positions visited from the END (a deletion never moves a position still to come), or removal by value while walking a snapshot
+        safe = direction == "desc" and not (live and what == "value" and not by_value) or by_value and not live
+        ctx.check(safe, "expiry-sweep", cl, l, "a loop that deletes from the key's list visits the positions from the end (or removes by value from a snapshot)",
+                  f"Storage.clean deletes entries of a key's list inside `{head(l)}`, which walks the list from the front: every deletion moves the following entries "
+                  "one position down, so the entry right behind a removed one is never examined - of two adjacent expired values the second survives maintenance "
+                  "and keeps being served")
     scans = [w for w in whiles if w not in early and any(o in list(ancestors(w)) for o in outer) and (full_scan(w) or down_scan(w))]
     if any(w not in scans for w in whiles) and not early:
         raise AnalysisError("undecided: Storage.clean sweeps with a while loop whose coverage of the list is not decided")
